@@ -65,12 +65,25 @@ func (r *RecStore) Counts() (uint64, uint64, []string) {
 	return r.Reads, r.MaxRange, append([]string(nil), r.Calls...)
 }
 
+// after is a park point behind a store call (only when the proxy is delaying at all): the server
+// has its answer and something else may happen before it acts on it.
+func (r *RecStore) after(call string) {
+	r.mu.Lock()
+	d := r.Delay
+	r.mu.Unlock()
+	if d != nil {
+		r.S.Yield("store:" + r.Name + ":" + call + ":done")
+	}
+}
+
 func (r *RecStore) Head(ctx context.Context, o ...header.HeadOption[*H]) (*H, error) {
 	r.note(ctx, "Head", 1)
 	if err := ctx.Err(); err != nil {
 		return nil, err
 	}
-	return r.Store.Head(ctx, o...)
+	h, err := r.Store.Head(ctx, o...)
+	r.after("Head")
+	return h, err
 }
 
 func (r *RecStore) Get(ctx context.Context, h header.Hash) (*H, error) {
